@@ -50,6 +50,12 @@ type c06Reuse struct {
 	Immediate bool `json:"immediate,omitempty"`
 	// YieldInWrite: how often the writing goroutine yields the processor inside that write.
 	YieldInWrite int `json:"yield_in_write,omitempty"`
+	// FirstSteps, when > 0 (client-initiated first exchange only): only that many steps of exchange 0
+	// are played - the broker never answers, and the client uses the message ID again (a
+	// retransmission, or after giving up): exchange 0 is superseded, not finished.
+	FirstSteps int `json:"first_steps,omitempty"`
+	// FirstRefused (first exchange a SUBSCRIBE): the broker refuses it (SUBACK 0x80); it is finished.
+	FirstRefused bool `json:"first_refused,omitempty"`
 }
 
 var c06Steps = map[string]int{"cpub1": 2, "cpub2": 4, "csub": 2, "bpub1": 2, "bpub1new": 3, "bpub2": 4, "bpub2new": 5, "bpub0new": 2}
@@ -234,6 +240,14 @@ func runC06(c c06Case) (r vf.Result) {
 				s.ClientSend(gwgen.SubscribeName(fmt.Sprintf("s/%d", xi), 1, x.Mid), false)
 				expect("MQTT SUBSCRIBE", find(take(), gwsim.GB, mqIs(mqttref.SUBSCRIBE, x.Mid)))
 			case 1:
+				if c.Reuse != nil && c.Reuse.FirstRefused && xi == 0 {
+					s.BrokerSend(mqttref.Pkt{Type: mqttref.SUBACK, MsgID: x.Mid, Codes: []byte{0x80}}, false)
+					e := find(take(), gwsim.GC, snIs(snref.SUBACK, x.Mid))
+					if expect("SUBACK to the client", e) && e.SN.RC == 0 {
+						st.failed = "refused SUBACK translated as accepted"
+					}
+					break
+				}
 				s.BrokerSend(mqttref.Pkt{Type: mqttref.SUBACK, MsgID: x.Mid, Codes: []byte{1}}, false)
 				e := find(take(), gwsim.GC, snIs(snref.SUBACK, x.Mid))
 				if expect("SUBACK to the client", e) && (e.SN.RC != 0 || e.SN.TopicID == 0) {
@@ -404,7 +418,15 @@ func runC06ReusePhase(c c06Case, s *gwsim.Session, states []c06State, advance fu
 		defer func() { s.MQ.OnWrite = nil }()
 		r.Label("identifier-reused-at-once")
 	}
-	for k := 0; k < c06Steps[c.Exchanges[0].Kind]; k++ {
+	n1 := c06Steps[c.Exchanges[0].Kind]
+	if ru.FirstSteps > 0 && ru.FirstSteps < n1 {
+		n1 = ru.FirstSteps
+		r.Label("first-exchange-superseded")
+	}
+	if ru.FirstRefused {
+		r.Label("first-subscribe-refused")
+	}
+	for k := 0; k < n1; k++ {
 		advance(k, 0)
 	}
 	if states[0].failed != "" {
@@ -458,6 +480,11 @@ func genC06Reuse(t *rapid.T) c06Case {
 		ru.StepDelayMs = append(ru.StepDelayMs, d)
 		ru.DupAt = append(ru.DupAt, rapid.IntRange(0, 3).Draw(t, "dup"))
 	}
+	if c06Client(k1) && rapid.IntRange(0, 2).Draw(t, "superseded") == 0 {
+		ru.FirstSteps = rapid.IntRange(1, c06Steps[k1]-1).Draw(t, "first_steps")
+	} else if k1 == "csub" {
+		ru.FirstRefused = rapid.Bool().Draw(t, "first_refused")
+	}
 	if !c06Client(k1) && !c06Client(k2) && rapid.Bool().Draw(t, "immediate") {
 		ru.Immediate, ru.GapMs = true, 0
 		ru.YieldInWrite = rapid.SampledFrom([]int{0, 1, 3, 10}).Draw(t, "yield")
@@ -469,7 +496,7 @@ func genC06Reuse(t *rapid.T) c06Case {
 func TestC06Reuse(t *testing.T) {
 	vf.Check(t, vf.Prop[c06Case]{
 		ID: "C06", Name: "gateway-message-id-reused", Bubble: true,
-		Rule: "one exchange (client PUBLISH QoS 1/2, SUBSCRIBE, broker PUBLISH QoS 1/2 on a known or a new topic) runs to completion; 0-1.5 RetryDelay later a second exchange of any of these kinds uses the same message ID; its steps are spread over at most 0.85 RetryDelay after its opening (so none of its own timers fires, while whatever the first exchange left armed does), and before some steps a late duplicate of an acknowledgement the client sent in the first exchange arrives (UDP may duplicate and delay), unless it is of the very type the second exchange is waiting for. When both exchanges are broker-initiated, in half of the cases the broker sends the second PUBLISH at the very moment the gateway writes the last acknowledgement of the first (a broker may reuse a packet identifier as soon as it has the PUBACK / PUBCOMP). RetryDelay 1 s / 4 s, virtual time. Every case is non-trivial; distinct by case.",
+		Rule: "one exchange (client PUBLISH QoS 1/2, SUBSCRIBE, broker PUBLISH QoS 1/2 on a known or a new topic) runs to completion (a SUBSCRIBE: granted or refused) or, in a third of the client-initiated cases, is left unanswered by the broker after 1..n-1 of its steps (superseded: the client retransmits, or gives up and uses the ID again); 0-1.5 RetryDelay later a second exchange of any of these kinds uses the same message ID; its steps are spread over at most 0.85 RetryDelay after its opening (so none of its own timers fires, while whatever the first exchange left armed does), and before some steps a late duplicate of an acknowledgement the client sent in the first exchange arrives (UDP may duplicate and delay), unless it is of the very type the second exchange is waiting for. When both exchanges are broker-initiated, in half of the cases the broker sends the second PUBLISH at the very moment the gateway writes the last acknowledgement of the first (a broker may reuse a packet identifier as soon as it has the PUBACK / PUBCOMP). RetryDelay 1 s / 4 s, virtual time. Every case is non-trivial; distinct by case.",
 		Assumptions: []string{"oracle: the second exchange completes normally, every step translated with the right message ID and topic ID", "only the client side duplicates (datagrams); the broker connection is a byte stream"},
 		Gen:         genC06Reuse,
 		Run:         runC06,
